@@ -416,7 +416,16 @@ pub fn gen_bspec(r: &mut Rng, size: u32) -> BSpec {
             }
         }
         let zeros = vec![0u8; 65_536];
-        let fits = |spec: &BSpec, n: usize| spec.build().write(&mut Count(0), &zeros[..n]).is_ok();
+        // a panic of the builder on an unencodable size (which would be a
+        // C10 matter) must not take the harness down: it counts as "no fit"
+        let fits = |spec: &BSpec, n: usize| {
+            let prev = crate::runner::set_guarded(true);
+            let r = std::panic::catch_unwind(std::panic::AssertUnwindSafe(|| {
+                spec.build().write(&mut Count(0), &zeros[..n]).is_ok()
+            }));
+            crate::runner::set_guarded(prev);
+            r.unwrap_or(false)
+        };
         let (mut lo, mut hi) = (0usize, 65_536usize);
         if fits(&spec, 0) {
             while lo + 1 < hi {
